@@ -1,6 +1,477 @@
-//! C08 — not built yet.
-use mcx::{Ctx, Value};
-pub fn run(_ctx: &Ctx, _replay: Option<&Value>) -> i32 {
-    eprintln!("C08: check not built yet");
-    2
+//! C08 — the program commitment is the specified MAST hash of the executable code.
+//!
+//! (a) batching, exhaustively: all operation sequences over {NOOP, ADD, PUSH(v)} up to a length,
+//!     and all such sequences appended to 54..=73 plain operations (every alignment of the 9-op group
+//!     and 72-op / 8-group batch boundaries): documented batching rules + hash = reference sponge;
+//! (b) control blocks: all trees to depth 2 (+ one more level on top of each) over join / split /
+//!     loop / call / syscall / dyn with two distinct spans: hash = reference domain-separated merge;
+//! (c) invariance (comments, blank lines, procedure names, debug mode, decorators at every
+//!     instruction boundary) and sensitivity (every instruction / immediate changed) over a corpus;
+//! (d) the hash recorded by an execution equals the program's hash.
+
+use crate::common::*;
+use crate::progs;
+use mcx::{json, Ctx, Value};
+use rayon::prelude::*;
+use refvm::mast::{self, opcode, Perm, Word};
+use std::collections::BTreeMap;
+use std::sync::atomic::{AtomicU64, Ordering};
+use vm_core::code_blocks::{CodeBlock, OpBatch};
+use vm_core::{Felt, Operation, StarkField};
+use winter_prover::Trace;
+
+struct Rpo;
+impl Perm for Rpo {
+    fn permute(&self, st: &mut [u64; 12]) {
+        let mut s: [Felt; 12] = [Felt::new(0); 12];
+        for i in 0..12 {
+            s[i] = Felt::new(st[i]);
+        }
+        vm_core::chiplets::hasher::apply_permutation(&mut s);
+        for i in 0..12 {
+            st[i] = s[i].as_int();
+        }
+    }
+}
+
+fn word_of(d: vm_core::chiplets::hasher::Digest) -> Word {
+    let w: [Felt; 4] = d.into();
+    [w[0].as_int(), w[1].as_int(), w[2].as_int(), w[3].as_int()]
+}
+
+fn mk_ops(code: &[u8]) -> Vec<Operation> {
+    code.iter()
+        .enumerate()
+        .map(|(i, c)| match c {
+            0 => Operation::Noop,
+            1 => Operation::Add,
+            _ => Operation::Push(Felt::new(1_000_003 + i as u64)),
+        })
+        .collect()
+}
+
+fn batches_of(b: &[OpBatch]) -> Vec<[u64; 8]> {
+    b.iter()
+        .map(|x| {
+            let g = x.groups();
+            let mut o = [0u64; 8];
+            for i in 0..8 {
+                o[i] = g[i].as_int();
+            }
+            o
+        })
+        .collect()
+}
+
+/// checks one span against the documented rules; returns Err(reason)
+fn check_span(ops: &[Operation]) -> Result<(), (String, String)> {
+    let r = mcx::guard::catch(|| vm_core::code_blocks::Span::new(ops.to_vec()));
+    let span = match r {
+        Ok(s) => s,
+        Err(p) => return Err(("span_new_panic".into(), mcx::guard::short_panic(&p))),
+    };
+    let batches = span.op_batches();
+    let groups = batches_of(batches);
+    let carries = |c: u8| c == opcode::PUSH;
+    let mut decoded = vec![];
+    for (bi, b) in batches.iter().enumerate() {
+        let ng = b.num_groups();
+        let declared = ng.next_power_of_two();
+        if bi + 1 < batches.len() && declared != 8 {
+            // only the last batch may be short
+            return Err(("non_final_batch_not_full".into(), format!("batch {bi} has {ng} groups")));
+        }
+        match mast::decode_batch(&groups[bi], declared, &carries) {
+            Ok(d) => decoded.extend(d),
+            Err(e) => return Err(("batching_rule".into(), format!("batch {bi}: {e}"))),
+        }
+        // the implementation's own view of the batch must agree with its groups
+        if b.ops().len() > 72 {
+            return Err(("batching_rule".into(), format!("batch {bi} holds {} operations", b.ops().len())));
+        }
+    }
+    // groups decode back to the operation sequence up to NOOP padding
+    let want: Vec<(u8, Option<u64>)> =
+        ops.iter().filter(|o| **o != Operation::Noop).map(|o| (o.op_code(), o.imm_value().map(|v| v.as_int()))).collect();
+    let got: Vec<(u8, Option<u64>)> = decoded.iter().filter(|d| d.opcode != opcode::NOOP).map(|d| (d.opcode, d.imm)).collect();
+    if want != got {
+        return Err(("groups_do_not_decode_to_the_sequence".into(), format!("want {want:?} got {got:?}")));
+    }
+    // hash = RPO sponge over the batches
+    let h = mast::hash_batches(&groups, &Rpo);
+    if h != word_of(span.hash()) {
+        return Err(("span_hash".into(), format!("reference {h:?} real {:?}", word_of(span.hash()))));
+    }
+    Ok(())
+}
+
+fn report_span(ctx: &Ctx, code: &[u8], prefix: usize) {
+    let mut ops: Vec<Operation> = (0..prefix).map(|i| if i % 2 == 0 { Operation::Add } else { Operation::Mul }).collect();
+    ops.extend(mk_ops(code));
+    if let Err((kind, detail)) = check_span(&ops) {
+        ctx.fail(
+            json!({"kind": kind}),
+            format!("prefix of {prefix} plain ops + pattern {code:?} (0=NOOP,1=ADD,2=PUSH): {detail}"),
+            json!({"kind": "span", "prefix": prefix, "pattern": code}),
+        );
+    }
+}
+
+// ---- (b) control blocks -------------------------------------------------------------------------
+
+#[derive(Clone, Debug)]
+enum T {
+    SpanA,
+    SpanB,
+    Call,
+    Syscall,
+    Dyn,
+    Join(Box<T>, Box<T>),
+    Split(Box<T>, Box<T>),
+    Loop(Box<T>),
+}
+
+fn span_a() -> CodeBlock {
+    CodeBlock::new_span(vec![Operation::Add, Operation::Push(Felt::new(7)), Operation::Mul])
+}
+fn span_b() -> CodeBlock {
+    CodeBlock::new_span((0..80).map(|i| if i % 7 == 0 { Operation::Push(Felt::new(i)) } else { Operation::Swap }).collect())
+}
+
+fn real_block(t: &T) -> CodeBlock {
+    match t {
+        T::SpanA => span_a(),
+        T::SpanB => span_b(),
+        T::Call => CodeBlock::new_call(span_a().hash()),
+        T::Syscall => CodeBlock::new_syscall(span_b().hash()),
+        T::Dyn => CodeBlock::new_dyn(),
+        T::Join(a, b) => CodeBlock::new_join([real_block(a), real_block(b)]),
+        T::Split(a, b) => CodeBlock::new_split(real_block(a), real_block(b)),
+        T::Loop(a) => CodeBlock::new_loop(real_block(a)),
+    }
+}
+
+fn ref_hash(t: &T) -> Word {
+    let span_hash = |b: CodeBlock| -> Word {
+        match b {
+            CodeBlock::Span(s) => mast::hash_batches(&batches_of(s.op_batches()), &Rpo),
+            _ => unreachable!(),
+        }
+    };
+    match t {
+        T::SpanA => span_hash(span_a()),
+        T::SpanB => span_hash(span_b()),
+        T::Call => mast::merge_in_domain(span_hash(span_a()), [0; 4], opcode::CALL as u64, &Rpo),
+        T::Syscall => mast::merge_in_domain(span_hash(span_b()), [0; 4], opcode::SYSCALL as u64, &Rpo),
+        T::Dyn => mast::merge_in_domain([0; 4], [0; 4], opcode::DYN as u64, &Rpo),
+        T::Join(a, b) => mast::merge_in_domain(ref_hash(a), ref_hash(b), opcode::JOIN as u64, &Rpo),
+        T::Split(a, b) => mast::merge_in_domain(ref_hash(a), ref_hash(b), opcode::SPLIT as u64, &Rpo),
+        T::Loop(a) => mast::merge_in_domain(ref_hash(a), [0; 4], opcode::LOOP as u64, &Rpo),
+    }
+}
+
+fn trees(depth: usize) -> Vec<T> {
+    let leaves = vec![T::SpanA, T::SpanB, T::Call, T::Syscall, T::Dyn];
+    if depth == 0 {
+        return leaves;
+    }
+    let sub = trees(depth - 1);
+    let mut out = leaves;
+    for a in &sub {
+        out.push(T::Loop(Box::new(a.clone())));
+        for b in &sub {
+            out.push(T::Join(Box::new(a.clone()), Box::new(b.clone())));
+            out.push(T::Split(Box::new(a.clone()), Box::new(b.clone())));
+        }
+    }
+    out
+}
+
+// ---- (c) invariance / sensitivity ---------------------------------------------------------------
+
+const STRUCT: [&str; 6] = ["begin", "end", "else", "if.true", "while.true", "export"];
+
+fn is_structural(tok: &str) -> bool {
+    STRUCT.contains(&tok) || tok.starts_with("proc.") || tok.starts_with("repeat.") || tok.starts_with("export.") || tok.starts_with("use.")
+}
+
+fn hash_of(asm: &assembly::Assembler, src: &str) -> Result<Word, String> {
+    match mcx::guard::catch(|| asm.compile(src)) {
+        Ok(Ok(p)) => Ok(word_of(p.hash())),
+        Ok(Err(e)) => Err(format!("asm: {e}")),
+        Err(p) => Err(format!("PANIC {}", mcx::guard::short_panic(&p))),
+    }
+}
+
+/// an instruction that differs from `tok` but assembles in the same place
+fn mutate_token(tok: &str) -> Option<String> {
+    let name = tok.split('.').next().unwrap();
+    let alt = |s: &str| Some(s.to_string());
+    if name == "push" {
+        let parts: Vec<&str> = tok.split('.').collect();
+        if let Ok(v) = parts[parts.len() - 1].parse::<u64>() {
+            let mut p: Vec<String> = parts.iter().map(|s| s.to_string()).collect();
+            let n = p.len();
+            p[n - 1] = (v + 1).to_string();
+            return Some(p.join("."));
+        }
+        return None;
+    }
+    match tok {
+        "add" => alt("mul"),
+        "mul" => alt("add"),
+        "sub" => alt("add"),
+        "drop" => alt("dup drop drop"),
+        "swap" => alt("swap.2"),
+        "dropw" => alt("swapw dropw"),
+        "padw" => alt("push.0.0.0.1"),
+        "neg" => alt("inv"),
+        "not" => alt("eq.0"),
+        "and" => alt("or"),
+        "or" => alt("and"),
+        "eq" => alt("neq"),
+        "neq" => alt("eq"),
+        "dup" => alt("dup.1"),
+        "u32and" => alt("u32xor"),
+        "u32xor" => alt("u32and"),
+        "hperm" => alt("hperm hperm"),
+        "mem_load" => alt("mem_loadw"),
+        "u32overflowing_add" => alt("u32overflowing_sub"),
+        "u32wrapping_add" => alt("u32wrapping_sub"),
+        _ => {
+            if let Some(rest) = tok.strip_prefix("mem_store.") {
+                rest.parse::<u64>().ok().map(|a| format!("mem_store.{}", a + 1))
+            } else if let Some(rest) = tok.strip_prefix("mem_load.") {
+                rest.parse::<u64>().ok().map(|a| format!("mem_load.{}", a + 1))
+            } else if let Some(rest) = tok.strip_prefix("add.") {
+                rest.parse::<u64>().ok().map(|a| format!("add.{}", a + 1))
+            } else if let Some(rest) = tok.strip_prefix("dup.") {
+                rest.parse::<u64>().ok().map(|a| format!("dup.{}", (a + 1) % 16))
+            } else {
+                None
+            }
+        }
+    }
+}
+
+fn check_source_variants(ctx: &Ctx, case: &progs::ProgCase, counts: &[AtomicU64; 4]) {
+    let asm = case.assembler();
+    let base = match hash_of(&asm, &case.src) {
+        Ok(h) => h,
+        Err(e) => panic!("corpus program {} must assemble: {e}", case.name),
+    };
+    let toks: Vec<&str> = case.src.split_whitespace().collect();
+    let cj = |variant: &str, src: &str| json!({"kind": "variant", "variant": variant, "name": case.name, "original": case.src, "src": src, "kernel": case.kernel});
+    let expect_same = |variant: &str, src: String, asm: &assembly::Assembler| {
+        counts[0].fetch_add(1, Ordering::Relaxed);
+        match hash_of(asm, &src) {
+            Ok(h) if h == base => {}
+            Ok(_) => ctx.fail(json!({"kind": "hash_changed_by_non_semantic_edit", "variant": variant}), format!("{}: {variant}", case.name), cj(variant, &src)),
+            Err(e) => ctx.fail(
+                json!({"kind": "non_semantic_edit_breaks_assembly", "variant": variant, "error": e.chars().take(80).collect::<String>()}),
+                format!("{}: {variant}: {e}", case.name),
+                cj(variant, &src),
+            ),
+        }
+    };
+    // comments, blank lines, line layout
+    expect_same("comments", format!("# header comment\n{}\n# trailing comment", toks.join(" # c\n")), &asm);
+    expect_same("blank_lines", toks.join("\n\n   \n\t"), &asm);
+    // procedure names
+    if case.src.contains("proc.f") {
+        let renamed = case.src.replace("proc.f", "proc.some_other_name").replace("exec.f", "exec.some_other_name").replace("call.f", "call.some_other_name").replace("procref.f", "procref.some_other_name");
+        expect_same("renamed_procedure", renamed, &asm);
+    }
+    // debug mode
+    let dbg = case.assembler().with_debug_mode(true);
+    expect_same("debug_mode", case.src.clone(), &dbg);
+    // decorators at every instruction boundary (after every instruction token; never creating a
+    // decorator-only body, which is a separate known assembler defect)
+    for deco in ["emit.7", "trace.3", "debug.stack", "adv.push_mapval", "debug.mem", "debug.local"] {
+        for (i, t) in toks.iter().enumerate() {
+            if is_structural(t) {
+                continue;
+            }
+            if deco == "debug.local" && !case.src.contains("proc.f.2") {
+                continue;
+            }
+            let mut v: Vec<String> = toks.iter().map(|s| s.to_string()).collect();
+            v.insert(i + 1, deco.to_string());
+            counts[1].fetch_add(1, Ordering::Relaxed);
+            expect_same(&format!("decorator:{deco}"), v.join(" "), if deco.starts_with("debug") { &dbg } else { &asm });
+        }
+    }
+    // sensitivity: every instruction / immediate changed
+    for (i, t) in toks.iter().enumerate() {
+        if is_structural(t) {
+            continue;
+        }
+        let Some(m) = mutate_token(t) else {
+            counts[3].fetch_add(1, Ordering::Relaxed);
+            continue;
+        };
+        let mut v: Vec<String> = toks.iter().map(|s| s.to_string()).collect();
+        v[i] = m.clone();
+        let src = v.join(" ");
+        counts[2].fetch_add(1, Ordering::Relaxed);
+        match hash_of(&asm, &src) {
+            Ok(h) if h != base => {}
+            Ok(_) => ctx.fail(json!({"kind": "hash_unchanged_by_semantic_edit", "from": t.split('.').next().unwrap()}), format!("{}: `{t}` -> `{m}` at token {i}", case.name), cj("semantic", &src)),
+            Err(_) => {
+                counts[3].fetch_add(1, Ordering::Relaxed);
+            }
+        }
+    }
+}
+
+// ---- (d) execution consistency -------------------------------------------------------------------
+
+fn check_exec_hash(ctx: &Ctx, case: &progs::ProgCase) {
+    let program = case.assembler().compile(&case.src).expect("corpus program");
+    let t = match exec_trace(&program, &case.stack, case.advice_inputs(), processor::ExecutionOptions::default()) {
+        Ok(Ok(t)) => t,
+        _ => panic!("corpus program {} must execute", case.name),
+    };
+    let cj = json!({"kind": "exec", "name": case.name, "src": case.src, "kernel": case.kernel, "stack": case.stack, "advice": case.advice, "merkle": !case.merkle_leaves.is_empty()});
+    if word_of(*t.program_hash()) != word_of(program.hash()) {
+        ctx.fail(json!({"kind": "trace_program_hash"}), case.name.clone(), cj.clone());
+    }
+    // last executed decoder row: hasher state first half (decoder columns h0..h3 = main columns 16..20)
+    let cycles = t.trace_len_summary().main_trace_len();
+    let m = t.main_segment();
+    let row = cycles - 1;
+    let h: Word = [m.get(16, row).as_int(), m.get(17, row).as_int(), m.get(18, row).as_int(), m.get(19, row).as_int()];
+    if h != word_of(program.hash()) {
+        ctx.fail(json!({"kind": "final_decoder_row_hash"}), format!("{}: row {row} holds {h:?}", case.name), cj);
+    }
+}
+
+pub fn run(ctx: &Ctx, replay: Option<&Value>) -> i32 {
+    // the documented opcode values the reference relies on
+    for (doc, real, name) in [
+        (opcode::PUSH, Operation::Push(Felt::new(1)).op_code(), "PUSH"), (opcode::JOIN, Operation::Join.op_code(), "JOIN"),
+        (opcode::SPLIT, Operation::Split.op_code(), "SPLIT"), (opcode::LOOP, Operation::Loop.op_code(), "LOOP"),
+        (opcode::CALL, Operation::Call.op_code(), "CALL"), (opcode::SYSCALL, Operation::SysCall.op_code(), "SYSCALL"),
+        (opcode::DYN, Operation::Dyn.op_code(), "DYN"), (opcode::NOOP, Operation::Noop.op_code(), "NOOP"),
+    ] {
+        if doc != real {
+            ctx.fail(json!({"kind": "opcode_differs_from_documentation", "op": name}), format!("{name}: documented {doc}, implemented {real}"), json!({"kind": "opcode"}));
+        }
+    }
+    if let Some(case) = replay {
+        match case["kind"].as_str().unwrap_or("") {
+            "span" => {
+                let pat: Vec<u8> = case["pattern"].as_array().unwrap().iter().map(|x| x.as_u64().unwrap() as u8).collect();
+                let prefix = case["prefix"].as_u64().unwrap() as usize;
+                println!("span: {prefix} plain ops then pattern {pat:?} (0=NOOP,1=ADD,2=PUSH)");
+                let mut ops: Vec<Operation> = (0..prefix).map(|i| if i % 2 == 0 { Operation::Add } else { Operation::Mul }).collect();
+                ops.extend(mk_ops(&pat));
+                let span = vm_core::code_blocks::Span::new(ops);
+                for (i, b) in span.op_batches().iter().enumerate() {
+                    println!("batch {i}: num_groups={} groups={:?} op_counts={:?}", b.num_groups(), batches_of(&[b.clone()])[0], b.op_counts());
+                }
+                report_span(ctx, &pat, prefix);
+            }
+            "variant" | "exec" => {
+                println!("{}", serde_json::to_string_pretty(case).unwrap());
+                let u = |v: &Value| -> Vec<u64> { v.as_array().map(|a| a.iter().map(|x| x.as_u64().unwrap()).collect()).unwrap_or_default() };
+                let pc = progs::ProgCase {
+                    name: case["name"].as_str().unwrap_or("").into(),
+                    src: case["original"].as_str().or(case["src"].as_str()).unwrap().into(),
+                    kernel: case["kernel"].as_str().map(String::from),
+                    stack: u(&case["stack"]),
+                    advice: u(&case["advice"]),
+                    merkle_leaves: if case["merkle"].as_bool().unwrap_or(false) { progs::MERKLE_LEAVES.to_vec() } else { vec![] },
+                    tags: vec![],
+                };
+                if case["kind"] == "exec" {
+                    check_exec_hash(ctx, &pc);
+                } else {
+                    let c = [AtomicU64::new(0), AtomicU64::new(0), AtomicU64::new(0), AtomicU64::new(0)];
+                    check_source_variants(ctx, &pc, &c);
+                }
+            }
+            _ => println!("tree / opcode cases: re-run ./check C08 quick"),
+        }
+        return ctx.finish("exploration", json!({}), &[]);
+    }
+
+    // (a) batching
+    let lmax = ctx.tier.pick(10usize, 13usize);
+    let mut spans = 0u64;
+    for len in 1..=lmax {
+        let n = 3u64.pow(len as u32);
+        spans += n;
+        (0..n).into_par_iter().for_each(|idx| {
+            let pat = mcx::space::nth_tuple(&[0u8, 1, 2], len, idx);
+            report_span(ctx, &pat, 0);
+        });
+    }
+    let tail = ctx.tier.pick(6usize, 8usize);
+    let mut boundary = 0u64;
+    for prefix in 54..=73usize {
+        for len in 0..=tail {
+            let n = 3u64.pow(len as u32);
+            boundary += n;
+            (0..n).into_par_iter().for_each(|idx| {
+                let pat = mcx::space::nth_tuple(&[0u8, 1, 2], len, idx);
+                report_span(ctx, &pat, prefix);
+            });
+        }
+    }
+    ctx.sample(json!({"kind": "span", "prefix": 70, "pattern": [2, 1, 2, 0, 2]}));
+
+    // (b) control blocks
+    let t2 = trees(2);
+    let mut all: Vec<T> = t2.clone();
+    for t in &t2 {
+        all.push(T::Loop(Box::new(t.clone())));
+        all.push(T::Join(Box::new(t.clone()), Box::new(T::SpanA)));
+        all.push(T::Split(Box::new(T::SpanB), Box::new(t.clone())));
+    }
+    all.par_iter().for_each(|t| {
+        let real = word_of(real_block(t).hash());
+        let reference = ref_hash(t);
+        if real != reference {
+            let kind = format!("{t:?}").split('(').next().unwrap().to_string();
+            ctx.fail(json!({"kind": "control_block_hash", "root": kind}), format!("{t:?}: real {real:?} reference {reference:?}"), json!({"kind": "tree", "tree": format!("{t:?}")}));
+        }
+    });
+    ctx.sample(json!({"kind": "tree", "tree": format!("{:?}", all[all.len() / 2])}));
+
+    // (c) invariance / sensitivity over a corpus: every atom at top level + every frame for a few atoms
+    let p1 = progs::p1(false);
+    let corpus: Vec<&progs::ProgCase> = p1
+        .iter()
+        .filter(|c| c.name.contains("/Top/") || c.name.starts_with("add/") || c.name.starts_with("mem_rw/") || c.name.starts_with("loc_loadw/") || c.name.starts_with("hperm/") || c.name.starts_with("u32and/"))
+        .collect();
+    let counts = [AtomicU64::new(0), AtomicU64::new(0), AtomicU64::new(0), AtomicU64::new(0)];
+    corpus.par_iter().for_each(|c| check_source_variants(ctx, c, &counts));
+    ctx.sample(json!({"kind": "variant", "original": corpus[0].src, "example": "decorator emit.7 inserted after each instruction in turn; `add` -> `mul`"}));
+
+    // (d) execution consistency over P1
+    let execs = ctx.tier.pick(p1.len().min(800), p1.len());
+    p1[..execs].par_iter().for_each(|c| check_exec_hash(ctx, c));
+
+    let evals = spans + boundary + all.len() as u64 + counts[0].load(Ordering::Relaxed) + counts[2].load(Ordering::Relaxed) + execs as u64;
+    let cov = json!({
+        "evaluations": evals,
+        "distinct_nontrivial": spans + boundary,
+        "rule": "distinct op-sequence patterns over {NOOP, ADD, PUSH} (each pattern is a different sequence); non-trivial = every one of them (length >= 1 or a 54..73-op prefix)",
+        "span_patterns_up_to_length": lmax, "span_patterns": spans,
+        "boundary_patterns": boundary, "boundary_prefixes": "54..=73", "boundary_tail_up_to": tail,
+        "control_block_trees": all.len(),
+        "corpus_programs": corpus.len(),
+        "non_semantic_variants_checked": counts[0].load(Ordering::Relaxed),
+        "decorator_insertions": counts[1].load(Ordering::Relaxed),
+        "semantic_edits_checked": counts[2].load(Ordering::Relaxed),
+        "tokens_without_an_applicable_edit": counts[3].load(Ordering::Relaxed),
+        "executions_checked": execs,
+        "exhaustive": true,
+        "bounds": format!("all 3^n patterns for n <= {lmax}; all patterns of length <= {tail} after each prefix 54..=73; trees of depth <= 2 plus one more level"),
+    });
+    ctx.finish("exploration", cov, &[
+        "the RPO permutation (apply_permutation) and the opcode numbering are trusted primitives; absorption, capacity/domain placement, digest extraction and the batching rules are re-implemented from the design docs",
+        "the exact batching is fixed by the implementation within the documented rules; the check demands the rules (and hash = sponge over the resulting groups), not one particular packing",
+    ])
 }
